@@ -64,6 +64,9 @@ CHECKS = {
  "C20": entry(
    "Theorems over an interleaving model of the per-user JSON cache protocol, for any number of processes and every merge of their step lists: with the (repaired) atomic store / tolerant load no load ever sees a partial file, nobody crashes and every run finishes, and a successful lookup returns only an artefact stored for the same key with matching mtimes and flags; the pre-fix protocol's two failure modes are kept as decide-checked witnesses. Tied to the real load/store functions by a step-token scheduler and to real concurrent isoquant.py processes.",
    COMMON_NOTE + "json and os.replace atomicity are assumed externals (laws checked at run time). See docs/C20.md.", "§7 C20, docs/C20.md"),
+ "C11": entry(
+   "102 theorems for all inputs and all shifts k / mirror lengths L: every generated primitive and every function of the interval, profile and polyA-shift models is translation equivariant; primitives, sums, coverage/Jaccard sweeps, junction/exon conversion, preceding/following exon, both binary searches (index i <-> n-1-i) and the polyA/polyT count and shift pairs are mirror dual, with the exact condition (and witnesses) where the code is not; left/right event tables are closed under the swap (decide over regenerated tables). The relations are also evaluated on the real functions and the real assigner; whole-pipeline shift and reflection runs are search only.",
+   COMMON_NOTE + "Three known findings (polyA finder offset, flanking-intron side naming, left-site-only intron shift). Reflection of split_exons/merge/truncate/profiles and the pipeline clauses are evaluated, not proved. See docs/C11.md.", "§7 C11, docs/C11.md"),
 }
 
 NOT_APPLICABLE = {}
